@@ -189,7 +189,7 @@ func ParseStatic(content []byte, opts ParseStaticOptions) (*Static, error) {
 				if len(result.Agencies) > 0 {
 					var err error
 					timezone, err = time.LoadLocation(result.Agencies[0].Timezone)
-					if err != nil {
+					if err != nil || result.Agencies[0].Timezone == "Local" {
 						timezone = time.UTC
 					}
 				}
